@@ -5,6 +5,7 @@ import (
 	"fmt"
 	"regexp"
 	"strings"
+	"unicode/utf8"
 
 	sdk "github.com/cosmos/cosmos-sdk/types"
 	"github.com/cosmos/cosmos-sdk/types/bech32"
@@ -109,7 +110,7 @@ func refCharset(s string) bool {
 
 func refTopic(s string) bool   { return len(s) >= 1 && len(s) <= 70 && refCharset(s) }
 func refMoniker(s string) bool { return len(s) <= 70 && refCharset(s) }
-func refDesc(s string) bool    { return len(s) <= 5000 }
+func refDesc(s string) bool    { return len(s) <= 5000 && utf8.ValidString(s) } // text = UTF-8 (proto3 string)
 
 // refAddr: bech32 with human-readable part "panacea" and 1..255 payload bytes.
 func refAddr(s string) bool {
@@ -248,7 +249,7 @@ func monikerClasses(thorough bool) [][2]string {
 
 func descClasses(thorough bool) [][2]string {
 	c := [][2]string{{"empty", ""}, {"len4999", rep("d", 4999)}, {"len5000", rep("d", 5000)}, {"len5001", rep("d", 5001)}, {"multibyte5000bytes", rep("é", 2500)}, {"multibyte2501runes", rep("é", 2501)},
-		{"len65536", rep("d", 65536)}, {"len70536", rep("d", 65536+5000)}}
+		{"len65536", rep("d", 65536)}, {"len70536", rep("d", 65536+5000)}, {"not-utf8", "a\xffb"}}
 	if thorough {
 		c = append(c, [2]string{"control", "a\x00\x01\n"})
 	}
